@@ -8,11 +8,10 @@ that the driver executes on `Float` and the correspondence check compares with `
 The multivariate statement is assembled per coordinate: a point with one varying coordinate is `vpre ++ s :: vpost`,
 the matching center `upre ++ a :: upost` with `vpre.length = upre.length` (every coordinate of every vector has this
 form), and `HasDerivAt … t` is the partial derivative at `s = t` with the other coordinates fixed.  Theorems named
-`…_partial` are the per-coordinate parts of the full Fréchet-derivative statement `C04_full`.  `C04_full` is PROVED for
-no transform, a diagonal transform and a full symmetric matrix (`C04_full_no_transform`, `C04_full_diag`,
-`C04_full_symm`: L2, product, Lpq, sum-power, `n ≥ 1`; joint differentiability from `Lemmas/GradFull.lean`); it stays a
-`def … : Prop` only because of the memory-light kernel, for which the per-coordinate theorems (no transform = L2, diagonal
-`M`) are what is proved.
+`…_partial` are the per-coordinate parts of the full Fréchet-derivative statement `C04_full`, which is PROVED
+(`C04_full_holds`): every kernel (the memory-light one included), no transform / a vector / a symmetric matrix tied to the
+list model, every `n` (joint differentiability and the passage from partial derivatives to the Fréchet derivative are in
+`Lemmas/GradFull.lean`).
 -/
 import Xrfmv.Lemmas.Grad
 import Xrfmv.Lemmas.GradFull
@@ -210,7 +209,7 @@ theorem l2_term_finite (P : Params ℝ) (g : Guards P) (hq : 1 ≤ P.q) (dist δ
     |l2Factor P dist * δ| ≤ P.q / P.L ^ P.q * dist ^ (P.q - 1) :=
   l2_term_bounded P g.L_pos hq dist δ hd hδ
 
-/-! ### the full statement (proved below for every transform, all kernels but the memory-light one) -/
+/-! ### the full statement (proved below: `C04_full_holds`) -/
 
 /-- Gradient vector as a continuous linear functional on `ℝⁿ`. -/
 noncomputable def gradCLM {n : ℕ} (gv : List ℝ) : (Fin n → ℝ) →L[ℝ] ℝ :=
@@ -229,7 +228,7 @@ def GeneralPosition {n : ℕ} (k : Kind) (P : Params ℝ) (T : Transform ℝ) (x
   | .light => P.eps ≤ Real.sqrt (lightSq T (List.ofFn x) (List.ofFn z))
   | _ => ∀ e : Fin n, P.eps ≤ |(applyT T (List.ofFn z)).getD e 0 - (applyT T (List.ofFn x)).getD e 0|
 
-/-- **C04, full strength (proved for `T` none / diagonal / full symmetric and every kernel but the memory-light one: `C04_full_no_transform`, `C04_full_diag`, `C04_full_symm`)**: for every kernel, every admissible parameter set and transform, every set of
+/-- **C04, full strength (proved: `C04_full_holds`)**: for every kernel, every admissible parameter set and transform, every set of
 centers and coefficient row, at every point in general position the predictor `z ↦ f(z)` of the raw point is Fréchet
 differentiable and the row of the tensor returned by `fgrad` is its gradient. -/
 def C04_full : Prop :=
@@ -272,13 +271,6 @@ theorem C04_full_no_transform (n : ℕ) [NeZero n] (k : Kind) (hk : k ≠ .light
     cases k <;> first | exact absurd rfl hk | simp [predictRow, applyT, hcomp]
   rw [hfun, hrow]
   exact key
-
-theorem applyT_diag_ofFn {n : ℕ} (τ w : Fin n → ℝ) :
-    applyT (.diag (List.ofFn τ)) (List.ofFn w) = List.ofFn fun e => w e * τ e := by
-  simp only [applyT]; exact zipWith_ofFn _ w τ
-
-theorem getD_ofFn {n : ℕ} (f : Fin n → ℝ) (e : Fin n) : (List.ofFn f).getD e 0 = f e := by
-  simp [List.getD_eq_getElem?_getD]
 
 /-- **C04, full strength with a diagonal transform (proved)**: the predictor of the raw point
 `z ↦ Σ_i c_i k(x_i ⊙ τ, z ⊙ τ)` is Fréchet differentiable at every point in general position (in transformed coordinates)
@@ -345,25 +337,6 @@ theorem C04_full_diag (n : ℕ) [NeZero n] (k : Kind) (hk : k ≠ .light) (P : P
     refine hmain.congr_of_eventuallyEq ?_
     filter_upwards with s
     rw [ofFn_update]
-
-theorem applyT_full_ofFn {n : ℕ} (T : Matrix (Fin n) (Fin n) ℝ) (x : Fin n → ℝ) :
-    applyT (.full (List.ofFn fun i => List.ofFn (T i))) (List.ofFn x) = List.ofFn (Matrix.vecMul x T) := by
-  apply List.ext_getElem?
-  intro i
-  by_cases hi : i < n
-  · have h := applyT_full_entry T x ⟨i, hi⟩
-    simp only at h
-    rw [h, List.getElem?_ofFn]
-    simp [hi]
-  · have hl : (applyT (.full (List.ofFn fun i => List.ofFn (T i))) (List.ofFn x)).length = n := by
-      simp [applyT]
-    rw [List.getElem?_eq_none (by omega), List.getElem?_eq_none (by simp; omega)]
-
-theorem list_eq_ofFn_getD {n : ℕ} (l : List ℝ) (h : l.length = n) : l = List.ofFn fun e : Fin n => l.getD e 0 := by
-  apply List.ext_getElem
-  · simp [h]
-  · intro i h1 h2
-    simp [List.getD_eq_getElem?_getD, List.getElem?_eq_getElem h1]
 
 /-- **C04, full strength with a full symmetric transform (proved; L2, product, Lpq, sum-power)**: the predictor of the raw
 point `z ↦ Σ_i c_i k(x_i T, z T)` is Fréchet differentiable at every point whose image is in general position, and the row
@@ -435,5 +408,56 @@ theorem C04_full_symm (n : ℕ) [NeZero n] (k : Kind) (hk : k ≠ .light) (P : P
     convert hch using 2
     funext e
     simp [ContinuousLinearMap.sum_apply, Pi.single_apply, hgv]
+
+/-- **C04, full strength, memory-light kernel (proved)**: `M` none, a vector or a symmetric matrix. -/
+theorem C04_full_light (n : ℕ) (P : Params ℝ) (T : Transform ℝ) (xs : List (Fin n → ℝ)) (c : List ℝ) (z : Fin n → ℝ)
+    (g : Guards P) (hT : SymmTransform n T) (hgp : ∀ x ∈ xs, GeneralPosition .light P T x z) :
+    HasFDerivAt (fun w : Fin n → ℝ => predictRow .light P T (xs.map List.ofFn) c (List.ofFn w))
+      (gradCLM (((fgrad .light P T (xs.map List.ofFn) [List.ofFn z] [c]).headD []).headD [])) z := by
+  obtain ⟨M, hact, hsym⟩ : ∃ M : Matrix (Fin n) (Fin n) ℝ, ActsAs T M ∧ M.IsSymm := by
+    cases T with
+    | none => exact ⟨1, actsAs_none, Matrix.isSymm_one⟩
+    | diag τ =>
+      have hτ : τ = List.ofFn fun e : Fin n => τ.getD e 0 := list_eq_ofFn_getD τ hT
+      refine ⟨Matrix.diagonal fun e : Fin n => τ.getD e 0, ?_, Matrix.isSymm_diagonal _⟩
+      rw [hτ]
+      convert actsAs_diag (fun e : Fin n => τ.getD e 0) using 3 <;> simp [getD_ofFn]
+    | full rows =>
+      obtain ⟨M, hM, rfl⟩ := hT
+      exact ⟨M, actsAs_full M, hM⟩
+  have key := light_hasFDerivAt P g.eps_pos hact hsym xs c z (fun x hx => hgp x hx)
+  simpa [predictRow, fgrad, gradCLM] using key
+
+/-- **C04, full strength (proved)**: `C04_full` holds — every kernel, every admissible parameter set, no transform / a
+vector / a symmetric matrix, every set of centers and coefficient row, every point in general position. -/
+theorem C04_full_holds : C04_full := by
+  intro n k P T xs c z g hT hgp
+  rcases Nat.eq_zero_or_pos n with rfl | hn
+  · -- `ℝ⁰` is a point: every function is differentiable with every derivative
+    have h0 := hasFDerivAt_of_subsingleton (𝕜 := ℝ)
+      (fun w : Fin 0 → ℝ => predictRow k P T (xs.map List.ofFn) c (List.ofFn w)) z
+    convert h0 using 1
+    ext v
+    simp [gradCLM]
+  haveI : NeZero n := ⟨hn.ne'⟩
+  by_cases hk : k = .light
+  · subst hk
+    exact C04_full_light n P T xs c z g hT hgp
+  · cases T with
+    | none => exact C04_full_no_transform n k hk P xs c z g hgp
+    | diag τ =>
+      have hτ : τ = List.ofFn fun e : Fin n => τ.getD e 0 := list_eq_ofFn_getD τ hT
+      rw [hτ] at hgp ⊢
+      exact C04_full_diag n k hk P xs c z _ g hgp
+    | full rows =>
+      obtain ⟨M, hM, rfl⟩ := hT
+      exact C04_full_symm n k hk P xs c z M hM g hgp
+
+/-- Non-vacuity of `C04_full_holds`: a point in general position w.r.t. a center (coordinate-wise kernels, no transform;
+every coordinate differs by at least `eps`), together with the satisfiable `Guards` above. -/
+example : GeneralPosition (n := 2) .prod { L := 3, q := 0.7, p := 1.5, eps := 1e-10, cmix := 0.2, power := 2 } .none
+    ![0, 0] ![3, 4] := by
+  intro e
+  fin_cases e <;> simp [applyT] <;> norm_num
 
 end Xrfmv.Props.C04
